@@ -9,6 +9,7 @@ import (
 	"os"
 	"os/exec"
 	"path/filepath"
+	"runtime/pprof"
 	"strconv"
 	"sync"
 	"syscall"
@@ -65,7 +66,14 @@ func Main() {
 			fmt.Fprintln(os.Stderr, err)
 			os.Exit(3)
 		}
+		if pf := os.Getenv("VERIF_PPROF"); pf != "" {
+			if w, err := os.Create(pf); err == nil {
+				pprof.StartCPUProfile(w)
+				defer pprof.StopCPUProfile()
+			}
+		}
 		f(json.RawMessage(b), args[3])
+		pprof.StopCPUProfile()
 		os.Exit(0)
 	}
 	if len(args) < 1 {
@@ -274,6 +282,7 @@ func RunBatch(c *Ctx, name string, start, end int, extra interface{}, timeout ti
 		lastIdx := -1
 		var lastDesc json.RawMessage
 		gotResult := false
+		yieldAt := -1
 		var streamed []res.Violation
 		for _, line := range bytes.Split(cr.Stdout, []byte("\n")) {
 			if bytes.HasPrefix(line, []byte("@V ")) {
@@ -281,6 +290,10 @@ func RunBatch(c *Ctx, name string, start, end int, extra interface{}, timeout ti
 				if json.Unmarshal(line[3:], &v) == nil {
 					streamed = append(streamed, v)
 				}
+				continue
+			}
+			if bytes.HasPrefix(line, []byte("@YIELD ")) {
+				yieldAt, _ = strconv.Atoi(string(bytes.TrimSpace(line[7:])))
 				continue
 			}
 			if bytes.HasPrefix(line, []byte("@CASE ")) {
@@ -297,6 +310,10 @@ func RunBatch(c *Ctx, name string, start, end int, extra interface{}, timeout ti
 			}
 		}
 		if gotResult && cr.Exit == 0 {
+			if yieldAt >= 0 && yieldAt < end {
+				start = yieldAt // the child asked to be restarted (housekeeping), not a death
+				continue
+			}
 			return deaths
 		}
 		deaths++
@@ -319,6 +336,13 @@ func RunBatch(c *Ctx, name string, start, end int, extra interface{}, timeout ti
 		}
 	}
 	return deaths
+}
+
+// ChildYield ends the child voluntarily after case idx-1; the parent restarts it at idx.
+func ChildYield(r *res.R, idx int) {
+	ChildDone(r)
+	os.Stdout.Write([]byte(fmt.Sprintf("@YIELD %d\n", idx)))
+	os.Exit(0)
 }
 
 // ParseBatchArg is the child-side helper.
